@@ -108,7 +108,7 @@ pub fn case(data: &[u8]) -> Case {
     let mut c = Cur::new(data);
     let mut steps = vec![Step::NewArena { preset: c.u8(), fallible: false, outcome: Outcome::Ok, ops: ops(&mut c, false) }];
     while !c.done() && steps.len() < 80 {
-        let st = match c.u8() % 37 {
+        let st = match c.u8() % 38 {
             0..=5 => Step::Mutate { arena: c.u8(), via_root: false, ops: ops(&mut c, false), panic_at: panic_at(&mut c) },
             6..=9 => Step::Mutate { arena: c.u8(), via_root: true, ops: ops(&mut c, false), panic_at: panic_at(&mut c) },
             10..=12 => Step::Collect { arena: c.u8(), api: api(c.u8()) },
@@ -128,6 +128,7 @@ pub fn case(data: &[u8]) -> Case {
             33 => Step::CloneFromHandle { dst: c.u8(), src: c.u8() },
             34 => Step::DropHandleUnwinding { h: c.u8() },
             35 => Step::PlainRootProtocol { root: c.u8(), variant: c.u8() },
+            36 => Step::Rootless { n: c.u8(), cyclic: c.u8() & 1 == 1, panics: c.u8() & 1 == 1 },
             _ => Step::Settle { arena: c.u8() },
         };
         steps.push(st);
